@@ -810,6 +810,11 @@ class Client(BaseClient):
                     name, info = cls.parse_line(line)
                     # skipping . and .. as these are symlinks in Unix
                     if str(name) in (".", ".."):
+                        # an empty path is "." as well: a line which ends
+                        # before the name is malformed, not the current
+                        # directory
+                        if not line.rstrip().endswith(b"."):
+                            raise ValueError(f"no name in listing line {line!r}")
                         continue
                     stat = cls.path / name, info
                     if info.get("type") == "dir" and recursive:
